@@ -19,7 +19,7 @@ pub fn def() -> CheckDef {
         meta: CheckMeta {
             id: "C08",
             level: "exploration",
-            rule: "generated buckets (empty, single entry, single leaf, two- and three-level, mixed key/value + sub-bucket; committed and mid-transaction after generated inserts/deletes). Candidate keys = for every present key k: k, k||00, k minus its last byte, k with last byte +1 / -1, plus the empty key, 00 and ff ff ff. Every candidate is used as a seek key (all of them up to 64 entries, a seeded sample of 96 above); every pair of candidates x {included, excluded, unbounded}^2 is used as a range (all pairs for <= 12 entries, 1500 seeded pairs above) through (Bound,Bound) and the std range types, plain / to_buckets() / to_kv_pairs(); next() is called 1-3 more times after the end. Oracles: scan = model entries once ascending then None forever; seek flag = presence, entries after seek = contiguous suffix starting at the key or at its predecessor/successor; range = hand-written filter of the model. An evaluation is one query. Non-trivial = query on a bucket of height >= 2 whose bound key is absent, excluded, or whose bounds are reversed. Distinct = hash of (bucket build, modifications, query); capped at 300k per shard (lower bound when capped).",
+            rule: "generated buckets (empty, single entry, single leaf, two- and three-level, mixed key/value + sub-bucket; committed and mid-transaction after generated inserts/deletes). Candidate keys = for every present key k: k, k||00, k minus its last byte, k with last byte +1 / -1, plus the empty key, 00 and ff ff ff. Every candidate is used as a seek key on a fresh cursor and on a cursor that has already yielded some entries or was run to its end (all candidates up to 64 entries, a seeded sample of 96 above); every pair of candidates x {included, excluded, unbounded}^2 is used as a range (all pairs for <= 12 entries, 1500 seeded pairs above) through (Bound,Bound) and the std range types, plain / to_buckets() / to_kv_pairs(); next() is called 1-3 more times after the end. Oracles: scan = model entries once ascending then None forever; seek flag = presence, entries after seek = contiguous suffix starting at the key or at its predecessor/successor; range = hand-written filter of the model. An evaluation is one query. Non-trivial = query on a bucket of height >= 2 whose bound key is absent, excluded, or whose bounds are reversed. Distinct = hash of (bucket build, modifications, query); capped at 300k per shard (lower bound when capped).",
             assumptions: &["seek(absent) may position at the predecessor or the successor (the existing test cursor_seek pins the predecessor)"],
         },
         shard,
@@ -46,7 +46,7 @@ impl QBound {
 #[derive(Serialize, Deserialize, Clone, Debug, PartialEq, Eq, Hash)]
 pub enum Query {
     Scan { extra: u8 },
-    Seek { key: Vec<u8>, extra: u8 },
+    Seek { key: Vec<u8>, extra: u8, #[serde(default)] pre: u8 },
     Range { lo: QBound, hi: QBound, mode: u8, extra: u8 },
 }
 
@@ -89,7 +89,7 @@ pub fn candidates(m: &MBucket) -> Vec<Vec<u8>> {
 pub fn run_query(b: &jammdb::Bucket, m: &MBucket, q: &Query, what: &str) -> Result<(), Failure> {
     match q {
         Query::Scan { extra } => check_scan(b, m, *extra, what),
-        Query::Seek { key, extra } => check_seek(b, m, key, *extra, what),
+        Query::Seek { key, extra, pre } => check_seek_pre(b, m, key, *extra, *pre, what),
         Query::Range { lo, hi, mode, extra } => check_range(b, m, &lo.to_bound(), &hi.to_bound(), *mode, *extra, what),
     }
 }
@@ -193,12 +193,16 @@ pub fn run_case(case: &C08Case, path: &std::path::Path, enumerate_budget: (usize
         // seeks
         if m.entries.len() <= 64 {
             for k in &cands {
-                do_q(Query::Seek { key: k.clone(), extra: (rng.below(3)) as u8 }, &mut out)?;
+                do_q(Query::Seek { key: k.clone(), extra: (rng.below(3)) as u8, pre: 0 }, &mut out)?;
+                // the same seek on a cursor that was already used: a few entries in, or run to the end
+                let pre = if rng.chance(1, 4) { 200 } else { 1 + rng.below(5) as u8 };
+                do_q(Query::Seek { key: k.clone(), extra: 1, pre }, &mut out)?;
             }
         } else {
             for _ in 0..enumerate_budget.0 {
                 let k = cands[rng.below(cands.len() as u64) as usize].clone();
-                do_q(Query::Seek { key: k, extra: (rng.below(3)) as u8 }, &mut out)?;
+                let pre = match rng.below(4) { 0 => 0, 1 => 200, _ => 1 + rng.below(5) as u8 };
+                do_q(Query::Seek { key: k, extra: (rng.below(3)) as u8, pre }, &mut out)?;
             }
         }
         // ranges
